@@ -468,6 +468,35 @@ func genHistory(mode string, seed uint64, idx int) history {
 		gen = genBCompositeOp
 	}
 	h := history{idx: idx, style: idx % 3}
+	if idx%5 == 4 {
+		// the entry points that look read-only, on an object nothing has been done to yet (or only the
+		// bitmap field was unset): whatever they create lazily is created while several of them run
+		readers := map[string][]string{
+			"message":    {"Bitmap", "GetFields", "Unmarshal", "Bitmap", "MarshalJSON", "Pack", "Clone"},
+			"composite":  {"GetSubfields", "Unmarshal", "MarshalJSON", "Pack", "Bytes", "String"},
+			"bcomposite": {"GetSubfields", "Unmarshal", "MarshalJSON", "Pack", "Bytes", "String"},
+		}[mode]
+		if mode == "message" && r.n(3) == 0 {
+			h.setup = append(h.setup, Op{Kind: "UnsetField", ID: 1})
+		}
+		k := 3 + r.n(2)
+		for g := 0; g < k; g++ {
+			var ops []Op
+			for i := 2 + r.n(3); i > 0; i-- {
+				kind := readers[r.n(len(readers))]
+				if g < 2 && i == 1 && mode == "message" {
+					kind = "Bitmap" // at least two goroutines start with the lazily created bitmap
+				}
+				ops = append(ops, Op{Kind: kind})
+			}
+			// the first operation of every goroutine runs at the same moment
+			for a, b := 0, len(ops)-1; a < b; a, b = a+1, b-1 {
+				ops[a], ops[b] = ops[b], ops[a]
+			}
+			h.threads = append(h.threads, ops)
+		}
+		return h
+	}
 	for i := r.n(3); i > 0; i-- {
 		h.setup = append(h.setup, gen(r))
 	}
